@@ -707,7 +707,10 @@ pub fn run(ctx: &mut Ctx) {
     let n_cfg = ctx.budget(10_000, 1_000_000) / ctx.nshards as u64;
     for i in 0..n_cfg {
         let kind = Kind::ALL[(i as usize + ctx.shard) % Kind::ALL.len()];
-        let budget = if rng.chance(1, 10) { 400 } else { 60 };
+        // every fifth chunked instance is the multithreaded instantiation, on a larger budget so that
+        // chunk lengths beyond 32 / partial blocks occur
+        let mt = kind.has_joint_rand() && i % 5 == 2;
+        let budget = if mt || rng.chance(1, 10) { 400 } else { 60 };
         let p = gen_params(&mut rng, kind, budget);
         let mut cfg = gen_cfg(&mut rng, kind, false);
         cfg.aggs = match rng.below(6) {
@@ -720,7 +723,10 @@ pub fn run(ctx: &mut Ctx) {
         ctx.trace(|| format!("cfg {i}: {} {:?}", p.describe(), cfg));
         let mut rng2 = Rng64::derive(ctx.seed, &["c02-case"], i * 6007 + ctx.shard as u64);
         let mut v = V02 { rng: &mut rng2, tampers: 16 };
-        if let Err(e) = with_prio3(ctx, &p, &cfg, &mut v) {
+        if mt {
+            ctx.count("configs_multithreaded_gadget");
+        }
+        if let Err(e) = with_prio3_ex(ctx, &p, &cfg, &mut v, mt) {
             ctx.inconclusive(format!("constructor refused {}: {e}", p.describe()));
         }
     }
